@@ -14,5 +14,5 @@ done
 (cd lean && lake build 2>&1 | grep -v "^info\|^WARNING\|warning:\|^  \|^$\|consider\|omit\|Note:" | tail -5)
 tools/update_fingerprints.py
 python3 tools/gen_audit.py >/dev/null
-python3 tools/gen_manifest.py
+/venv/bin/python tools/gen_manifest.py
 python3 tools/fix_hashes.py
